@@ -104,6 +104,19 @@ PROPS = {
   "assumptions": ["net/netip address parsing and strconv.Atoi are modelled from their Go 1.23 source (glue, tied by the differential only)",
                   "oracle: net/netip + math/big implementation of the documented set"],
  },
+ "C15": {
+  "props_modules": ["Ps3.Props.C15"],
+  "streams": [{"name": "c15", "timeout_quick": 300, "timeout_thorough": 1200}],
+  "rule": "real iprange.FilterListener over real netutil.LimitListener (wrapped in the order of cmd/ps3netsrv-go/server.go) on loopback TCP. Whitelist: 20 (150) specifications over 127.0.0.0/8 (single, CIDR, mask, range, IPv4-mapped, foreign) x 12-14 client source addresses bound to 127.x.y.z at and around the block borders: served vs closed without a byte. "
+          "Limit: N in 1..3 (1..8) with up to 4N clients in random arrival/departure orders mixed with rejected (non-whitelisted) arrivals; after every event the set of answered connections is compared with the model's",
+  "assumptions": ["'wait without being served' is kernel backlog behaviour: observed with 40 ms settle time per event, not proved", "fair accept loop", "membership is C14's"],
+ },
+ "C16": {
+  "props_modules": ["Ps3.Props.C16"],
+  "streams": [{"name": "c16", "timeout_quick": 300, "timeout_thorough": 1200}],
+  "rule": "the real server on loopback TCP with ReadTimeout T = 300 ms (thorough: 200, 400, 1000 ms) x 9 timing scripts: silent after connect, silent after 3 requests, stalled in the middle of a command, stalled in the middle of a path, a request every T/2 for 6T, one command dribbled in over 1.5T, a request in two halves, path after command, long-lived mixed requests; plus T = 0. Observed: number of responses and the time of the cut in buckets of T/2, compared with the timed model",
+  "assumptions": ["real timers, TCP and the scheduler are runtime behaviour: cut times compared in buckets of T/2 (tolerance about +-T/4)", "scripts avoid arrivals exactly at a deadline"],
+ },
  "C17": {
   "props_modules": ["Ps3.Props.C17"],
   "streams": [{"name": "c17", "bad_obs": BAD_OBS}],
@@ -123,6 +136,10 @@ LEVEL_TEXT = {
         "Tie: snapshot-compared sessions on the real server.",
  "C06": "Theorems: OPEN_DIR true iff directory; each entry-by-entry step reports exactly the next not-yet-reported entry (symlinks resolved, dangling skipped) or the end marker, which is then stable; the bulk listing is exactly the remaining entries; reported kind/size/mtime are the resolved object's; STAT and dir-size equations. "
         "Tie: differential against the harness's own stat walk.",
+ "C15": "Logic proved, runtime observed. Theorems on the listener state machine: at most N connections hold a slot in every reachable state (any arrival/departure order, mixed with rejected arrivals); a peer outside the whitelist at the head of the queue is closed without ever being served and its slot is free again; an insider arriving with a free slot is served at once; a departing connection frees its slot and a waiting insider takes it immediately. "
+        "Tie: the real listener wrappers on loopback TCP with clients bound to chosen 127.x.y.z addresses.",
+ "C16": "Logic proved, runtime observed. Theorems on the timed model of the serve loop: a connection whose complete requests arrive less than T apart is never cut and every request is answered, for any number of requests; an idle one (after connect, after k requests, with an incomplete request pending) is cut exactly T after the last loop top; late bytes are never served; T = 0 never cuts; with the deadline armed outside the loop an active client would be cut (witness). "
+        "Tie: timing scripts against the real server over TCP.",
  "C17": "Theorems: (start,count) are decoded in wire order; the answer is exactly the concatenation of the 2048-byte user-data slices at 24+(start+k)*S, closing iff a sector is cut short (after the correct prefix), nothing for count 0; detection returns the first candidate whose sector 16 carries either signature, for each of the 7 sizes. "
         "Tie: synthesised images with an independent slice oracle.",
  "C07": "Theorems: in every well-formed image each file's extent holds exactly the file's bytes followed by zeros to the sector end (any size), reading the extent returns them, files up to 4 GiB-1 get one record with the exact size, larger files get contiguous 0xFFFFF800-byte extents flagged multi-extent plus an unflagged remainder whose lengths sum to the size, portable names are preserved (upper-cased in the primary hierarchy). "
